@@ -317,6 +317,7 @@ Section Transparency.
         + intros m [->|Hm]; [|apply E2, Hm].
           eapply InvNode_same; [apply E3, Hni|apply HI; left; reflexivity].
         + intros m Hm. apply E3. intros Hin. apply Hm. right. exact Hin.
+      - apply Triv, agrees_refl.
     Qed.
 
     Lemma cap_spec_eq q : cap_spec n q = specified fx nd isr (cchain anc) q.
@@ -992,3 +993,48 @@ split; [exact A|]. split;
     intros Hg. unfold init_ops. apply hist_ok_init_aux; [exact Hg|lia|]. intros j Hj. lia.
   Qed.
 End Transparency.
+
+(* ------------------------------------------------------------------ the ex / ch ratio cache is transparent *)
+
+Lemma rc_get_set c k b v k' b' :
+  rc_get (rc_set c k b v) k' b' = if Bool.eqb b b' && String.eqb k k' then Some v else rc_get c k' b'.
+Proof.
+  unfold rc_get, rc_set, assoc_S. destruct b, b'; cbn [Bool.eqb andb rc_ch rc_ex find fst snd]; try reflexivity;
+    destruct (String.eqb k k'); reflexivity.
+Qed.
+
+(* every binding is what `measure` gives for that font description and that unit *)
+Definition rc_sound (measure : string -> bool -> Q) (c : rcache) : Prop :=
+  forall k b v, rc_get c k b = Some v -> v = measure k b.
+
+Lemma rc_empty_sound measure : rc_sound measure rc_empty.
+Proof. intros k b v. unfold rc_get, rc_empty. destruct b; discriminate. Qed.
+
+(* text.CharacterRatio returns the measure of the asked unit for the asked font, whatever was
+   asked before, and keeps the cache sound *)
+Theorem character_ratio_transparent measure c k b :
+  rc_sound measure c ->
+  snd (character_ratio measure c k b) = measure k b /\ rc_sound measure (fst (character_ratio measure c k b)).
+Proof.
+  intros Hs. unfold character_ratio. destruct (rc_get c k b) as [f|] eqn:E; cbn [fst snd].
+  - split; [apply Hs, E|exact Hs].
+  - split; [reflexivity|]. intros k' b' v'. rewrite rc_get_set.
+    destruct (Bool.eqb b b' && String.eqb k k') eqn:Eq; [|apply Hs].
+    apply andb_prop in Eq. destruct Eq as [Eb Ek]. apply eqb_prop in Eb. apply String.eqb_eq in Ek. subst.
+    intros [= <-]. reflexivity.
+Qed.
+
+(* any sequence of requests on a document's cache *)
+Fixpoint character_ratios (measure : string -> bool -> Q) (c : rcache) (reqs : list (string * bool)) : list Q :=
+  match reqs with
+  | [] => []
+  | (k, b) :: r => let '(c', v) := character_ratio measure c k b in v :: character_ratios measure c' r
+  end.
+
+Theorem character_ratios_transparent measure reqs : forall c,
+  rc_sound measure c -> character_ratios measure c reqs = map (fun kb => measure (fst kb) (snd kb)) reqs.
+Proof.
+  induction reqs as [|[k b] r IH]; intros c Hs; cbn [character_ratios map fst snd]; [reflexivity|].
+  destruct (character_ratio_transparent measure c k b Hs) as [Hv Hs'].
+  destruct (character_ratio measure c k b) as [c' v]. cbn [fst snd] in Hv, Hs'. rewrite Hv, (IH c' Hs'). reflexivity.
+Qed.
